@@ -116,7 +116,7 @@ func stripDir(v any, dir string) any {
 func C18(r *drv.Run) {
 	r.BuildWorker()
 	r.BuildCLI()
-	r.Rule = "the built vore binary in scratch directories over the cross product {-com, -src} x 6 file sets (one file, several by glob, none matching, a glob with the star in the middle of a name, a glob into a sub-directory, a wildcard directory segment that selects a symbolic link to a directory) x {none, -json, -formatted-json} x {-json-file} x {-formatted-json-file} x {default, NEW, NOTHING, OVERWRITE} x {-no-output} x {find, replace, two statements, failing program, literals with escapes} (thorough: all 5 760; quick: a seed-selected 600) plus 14 invalid invocations and 19 unknown mode names (other letter cases, near misses, the engine's internal fourth mode CONFIRM, numbers, lists) each with a find and a replace program; a fifth of the -src invocations with the program arriving through a named pipe, a third of the invocations with longer JSON output files left over from an earlier run, a quarter with the -files pattern made absolute, a sixth in a hostile environment (TMPDIR naming a missing directory, HOME missing, an unknown locale, PWD lying), an eighth started from the root directory with a relative pattern leading into the scratch directory, two thirds with their flag groups in a seed-chosen order and spelling (-flag value, --flag value, -flag=value). Three invocations that run for a while (one file of 16 MiB, thorough 64 MiB: ten to forty seconds of search) under -json, -formatted-json and -no-output: standard output is the one document, or empty. Sixteen invocations with -replace-mode given twice (every ordered pair of NOTHING, NEW, OVERWRITE and the empty value, three flag spellings, sometimes with a stale output file): the mode given last is in force, the empty value meaning NEW. Three file-name searches under every replace mode and over files that hold nothing (one, two, all of them empty): the document is the one the default mode gives over files with content. Eight invocations with the flag -filenames (two find programs, two replace programs whose rename cannot be done) under -json and -formatted-json: standard output is one JSON document whose matches lie in the names of the selected files. Oracle: exit status; stdout under -json/-formatted-json is exactly one JSON document equal (after decoding) to the library's result for the same program and files, computed by a worker through RunFiles; the named JSON files likewise; replace mode honoured with NEW as default and outputs equal to the splice (directory snapshot before/after); invalid invocations, unknown modes and compile errors exit non-zero with a message and an empty snapshot diff. Non-trivial = invocation with >= 1 match whose JSON/stdout/file effects were all verified; distinct by configuration."
+	r.Rule = "the built vore binary in scratch directories over the cross product {-com, -src} x 6 file sets (one file, several by glob, none matching, a glob with the star in the middle of a name, a glob into a sub-directory, a wildcard directory segment that selects a symbolic link to a directory) x {none, -json, -formatted-json} x {-json-file} x {-formatted-json-file} x {default, NEW, NOTHING, OVERWRITE} x {-no-output} x {find, replace, two statements, failing program, literals with escapes} (thorough: all 5 760; quick: a seed-selected 600) plus 14 invalid invocations and 19 unknown mode names (other letter cases, near misses, the engine's internal fourth mode CONFIRM, numbers, lists) each with a find and a replace program; a fifth of the -src invocations with the program arriving through a named pipe, a third of the invocations with longer JSON output files left over from an earlier run, a quarter with the -files pattern made absolute, a sixth in a hostile environment (TMPDIR naming a missing directory, HOME missing, an unknown locale, PWD lying), an eighth started from the root directory with a relative pattern leading into the scratch directory, two thirds with their flag groups in a seed-chosen order and spelling (-flag value, --flag value, -flag=value). Three invocations that run for a while (one file of 16 MiB, thorough 64 MiB: ten to forty seconds of search) under -json, -formatted-json and -no-output: standard output is the one document, or empty. Sixteen invocations with -replace-mode given twice (every ordered pair of NOTHING, NEW, OVERWRITE and the empty value, three flag spellings, sometimes with a stale output file): the mode given last is in force, the empty value meaning NEW. A rename through -filenames under every replace mode, with and without -no-output: the directory afterwards is the one the plain invocation leaves. Three file-name searches under every replace mode and over files that hold nothing (one, two, all of them empty): the document is the one the default mode gives over files with content. Eight invocations with the flag -filenames (two find programs, two replace programs whose rename cannot be done) under -json and -formatted-json: standard output is one JSON document whose matches lie in the names of the selected files. Oracle: exit status; stdout under -json/-formatted-json is exactly one JSON document equal (after decoding) to the library's result for the same program and files, computed by a worker through RunFiles; the named JSON files likewise; replace mode honoured with NEW as default and outputs equal to the splice (directory snapshot before/after); invalid invocations, unknown modes and compile errors exit non-zero with a message and an empty snapshot diff. Non-trivial = invocation with >= 1 match whose JSON/stdout/file effects were all verified; distinct by configuration."
 	r.Assumptions = []string{
 		"with -no-output only exit status and file effects of the replace mode are demanded (the documentation does not say whether JSON files are still written)",
 		"zero matches / no files: exit 0 and no JSON demanded (the property's 'when there is at least one match')",
